@@ -311,7 +311,7 @@ impl Check for C13 {
     fn cases(&self, tier: Tier) -> u64 {
         match tier {
             Tier::Quick => 60_000,
-            Tier::Thorough => 2_000_000,
+            Tier::Thorough => 1_000_000,
         }
     }
     fn tape_len(&self, _t: Tier) -> usize {
